@@ -67,7 +67,7 @@ fn gen_case(dna: &[u8], cfg: &crate::gen::GenCfg) -> Case {
 	let udna: Vec<u8> = (0..64).map(|_| d.u8()).collect();
 	let pdna: Vec<u8> = (0..96).map(|_| d.u8()).collect();
 	let junk_len = d.below(41);
-	let m = crate::gen::gen_model(&mut d, cfg);
+	let m = super::gen_model_mixed(&mut d, cfg, true);
 	let mut raw = m.raw();
 	let mut irr = Vec::new();
 	let old = !spec::gte(m.v(), (2, 2));
